@@ -38,6 +38,8 @@ func (msg Message) generateMarshalBebopTo(w *iohelp.ErrorWriter, settings Genera
 		writeFieldByter(name, fd.FieldType, w, settings, 2)
 		writeLineWithTabs(w, "}", 1)
 	}
+	writeLine(w, "\tbuf[at] = 0")
+	writeLine(w, "\tat++")
 	writeLine(w, "\treturn at")
 	writeCloseBlock(w)
 }
